@@ -347,7 +347,7 @@ class Intervals:
             return libmodel.call_interval(t, self, b, depth)
         if op == "phi":
             return self._phi(t, b, depth)
-        if op in ("field", "downcast", "index"):
+        if op in ("field", "downcast", "index") or (op == "memval" and t.args[0].op == "pf" and t.args[0].args[0].op == "mem"):
             r = libmodel.projection_interval(t, self, b, depth)
             if r is not None:
                 return r
